@@ -3,6 +3,7 @@ import Driver.Contract
 import Driver.FragJudge
 import Driver.StrictJudge
 import Driver.Numeric
+import Driver.CliJudge
 /- Driver.Dispatch — property id → judge. -/
 namespace Driver
 open Muxide Muxide.Spec
@@ -151,6 +152,18 @@ def judge (prop kind id rest impl : String) : Verdict :=
   | "C18" => judgeC18 id rest impl
   | "C13" => judgeC13 id rest impl
   | "C12" => judgeC12 kind id rest impl
+  | "C20" => if kind == "L" then judgeC20 id rest impl else judgeHist id rest impl (fun _ o => o.show) (fun _ _ _ => true)
+  | "C17" =>
+    -- byte-exact: every reply, every byte count, the whole file
+    if kind == "F" then
+      let c := parseFCase id rest
+      let mo := showF c (runF c)
+      { corr := mo == impl, oi := mo == impl, om := true, nt := true }
+    else
+      let c := parsePCase id rest
+      let mo := (runP c).show
+      { corr := mo == impl, oi := mo == impl, om := true,
+        nt := finishOkOps c.ops (parsePObs impl), note := if mo == impl then "" else "differs-from-model" }
   | "C10" => judgeFrag id rest impl projC10 oracleC10
   | "C11" => judgeFrag id rest impl projC11 oracleC11
   | "C16" => judgeC16 kind id rest impl
